@@ -323,7 +323,7 @@ def main(argv):
             per, nbin = int(12000 * a.scale), int(12000 * a.scale)
         else:
             cfgs = (a.configs.split(",") if a.configs else ALL_CONFIGS)
-            per, nbin = int(400000 * a.scale), int(200000 * a.scale)
+            per, nbin = int(800000 * a.scale), int(400000 * a.scale)
         exes = build_many(cfgs)
         m = run_sharded("c12", "gen", (names, per // NCPU + 1, nbin // NCPU + 1), [(c, exes[c]) for c in cfgs], a.seed)
         rep.merge(m)
